@@ -482,16 +482,35 @@ def _hash_dispatch(ctx, rep, fn):
         rep.undecided('R11.4', fn, 'lookup cache dispatch', str(e), fn.node)
         return
     cache_atoms = [a for a in atoms if a == 'self.cache']
+    # "a lookup exists" may be tested as `self.X is None` or by truthiness `self.X`
     none_atoms = [a for a in atoms if a.endswith('lookup is None')]
-    if not cache_atoms or not none_atoms:
-        raise AnalysisError('anchor vanished: %s no longer tests self.cache / the lookup (found %s)' % (fn.fq, atoms))
-    na = none_atoms[0]
-    attr = na.split(' is ')[0]
+    truth_atoms = [a for a in atoms if a.startswith('self.') and a.endswith('lookup')]
+    if not cache_atoms or not (none_atoms or truth_atoms):
+        rep.violated('R11.4', fn, 'lookup cache dispatch',
+                     'the view no longer decides from self.cache and the presence of its lookup whether to rebuild it (tests '
+                     'found: %s): either the cache flag is ignored or a stale lookup is reused' % atoms, fn.node)
+        return
+    if none_atoms:
+        pa = none_atoms[0]
+        attr = pa.split(' is ')[0]
+        absent = lambda val: val[pa]
+    else:
+        pa = truth_atoms[0]
+        attr = pa
+        absent = lambda val: not val[pa]
     for val, oc in rows:
-        rebuilt = any(isinstance(s, ast.Assign) and any(norm(t) == attr for t in s.targets) for s in oc.effects)
-        must = (not val['self.cache']) or val[na]
-        case = 'cache=%s %s' % (val['self.cache'], 'lookup None' if val[na] else 'lookup set')
-        if rebuilt == must:
+        rebuilt = any(isinstance(s, ast.Assign) and any(norm(t) == attr for t in s.targets) and
+                      isinstance(s.value, ast.Call) and not any(k.arg == 'dictionary' for k in s.value.keywords)
+                      for s in oc.effects)
+        refilled = any(isinstance(x, ast.Call) and any(k.arg == 'dictionary' and norm(k.value) == attr for k in x.keywords)
+                       for s in oc.effects for x in ast.walk(s))
+        must = (not val['self.cache']) or absent(val)
+        case = 'cache=%s %s' % (val['self.cache'], 'lookup absent' if absent(val) else 'lookup present')
+        if refilled:
+            rep.violated('R11.4', fn, case,
+                         'the existing lookup %s is filled again in place (dictionary=%s): rows of an earlier pass stay in it, so '
+                         'with cache=False every pass multiplies the matches' % (attr, attr), fn.node)
+        elif rebuilt == must:
             rep.held('R11.4', fn, case, 'rebuild' if rebuilt else 'reuse', fn.node)
         else:
             rep.violated('R11.4', fn, case,
